@@ -44,6 +44,7 @@ ComparisonPropagates ==
 TablesWellFormed ==
   /\ Aggregates \cap NotImplementedFns = {}
   /\ DOMAIN SingleValueArgs \subseteq DOMAIN Receiver
+  /\ \A f \in DOMAIN Receiver : Len(Receiver[f]) >= 1
   /\ \A f \in DOMAIN SingleValueArgs : \A k \in SingleValueArgs[f] : k <= Len(Filler[f])
   /\ \A j \in 1..Len(Funcs) : Funcs[j].min <= Funcs[j].max
 =============================================================================
